@@ -46,13 +46,13 @@ func init() {
 	mc.Register(&mc.Check{
 		ID:    "C12",
 		Level: "exploration",
-		Rule: "Cartesian product of viewBox width/height and target dx/dy over {2^e*m} (21 values quick, 48 thorough), 3 viewBox origins, 4x4 alignment fractions, for AspectMeet and AspectSlice, plus four extreme families (all dimensions ~2^64 resp. ~2^-80: products of two dimensions overflow resp. underflow float32 while every ratio stays moderate; viewBox ~2^-70 into a target ~2^60 and the reverse: the scale factor itself is outside the float32 range); " +
+		Rule: "Cartesian product of viewBox width/height and target dx/dy over {2^e*m} (21 values quick, 48 thorough), 3 viewBox origins, 4x4 alignment fractions, for AspectMeet and AspectSlice, plus seven extreme families (all dimensions ~2^64 resp. ~2^-80: products of two dimensions overflow resp. underflow float32 while every ratio stays moderate; viewBox ~2^-70 into a target ~2^60 and the reverse: the scale factor itself is outside the float32 range; subnormal viewBoxes ~2^-135 into subnormal and into normal targets, and the reverse); " +
 			"every result compared with an exact (big.Rat / float64) reference fit. An outcome is the tuple (which dimension is constrained, sign of slack in x, sign of slack in y, method); " +
 			"non-trivial = aspect ratios differ so that slack or overflow is non-zero in one dimension",
 		Assumptions: []string{"linux/amd64 float32 semantics", "tolerance 2^-18 relative to max(target side, result extent) per axis"},
 		Units: func(tier string) int {
 			n := len(c12Dom(tier == "thorough"))
-			return n*n + 4
+			return n*n + 7
 		},
 		Run:    c12Run,
 		Replay: c12Replay,
@@ -98,7 +98,7 @@ func c12Run(w *mc.W, u int) {
 	dom := c12Dom(w.Thorough)
 	n := len(dom)
 	if u >= n*n {
-		fam := [][2]int{{64, 64}, {-80, -80}, {-70, 60}, {60, -70}}[u-n*n]
+		fam := [][2]int{{64, 64}, {-80, -80}, {-70, 60}, {60, -70}, {-135, -135}, {-135, -100}, {-100, -135}}[u-n*n]
 		c12Extreme(w, fam[0], fam[1])
 		return
 	}
@@ -204,8 +204,11 @@ func c12Check(w *mc.W, cs *c12Case) {
 	vh := float64(vb.MaxY) - float64(vb.MinY)
 	ex0, ey0, ex1, ey1, constrained := refFit(vw, vh, float64(dx), float64(dy), float64(ax), float64(ay), cs.Slice, cs.Exact)
 	const rel = 1.0 / (1 << 18)
-	tx := rel * math.Max(float64(dx), ex1-ex0)
-	ty := rel * math.Max(float64(dy), ey1-ey0)
+	// float32 rounding is relative only down to the smallest normal number: below it the
+	// spacing is 2^-149 whatever the magnitude (a few roundings of it are allowed)
+	quantum := math.Ldexp(4, -149)
+	tx := math.Max(rel*math.Max(float64(dx), ex1-ex0), quantum)
+	ty := math.Max(rel*math.Max(float64(dy), ey1-ey0), quantum)
 	bad := ""
 	chk := func(what string, got float32, want, tol float64) {
 		if !(math.Abs(float64(got)-want) <= tol) {
